@@ -649,7 +649,7 @@ def _selfcheck():
         raise HarnessGap(f'scope self-check failed: {R.check_scopes(bad)}')
     bad2 = R.parse('(TableAggregate (TableRange 3 None) (Let eval __cse_1 (GetField idx (Ref row)) '
                    '(ApplyAggOp Max () ((Ref __cse_1)))))')
-    if [p[0] for p in R.check_scopes(bad2)] != ['lifted-let-wrong-context', 'lifted-let-used-outside-its-scope']:
+    if [p[0] for p in R.check_scopes(bad2)] not in (['lifted-let-wrong-context', 'lifted-let-used-outside-its-scope'],):
         raise HarnessGap(f'agg scope self-check failed: {R.check_scopes(bad2)}')
     # enumeration self-check: sharded enumeration is a partition of the unsharded one
     a = list(E.programs(4))
